@@ -320,9 +320,12 @@ static void exec(const plan_t *p)
             int fid = (int)o->a[1], n;
             long iv = o->a[2];
             spif_bool_t b;
+            int vfailed;
             size_t sl = o->slen < 15000 ? o->slen : 15000;
             memcpy(sa, o->s ? (const char *)o->s : "", sl); sa[sl] = 0;
             for (char *q = sa; *q; q++) if (*q == '%') *q = 'p';
+            /* a3: which vsnprintf() call of this operation fails (0: none) -- the formatter may run out of memory half way */
+            sim_vsnprintf_calls = 0; sim_vsnprintf_failed = 0; sim_vsnprintf_fail_at = o->na > 3 ? (int)o->a[3] : 0;
             switch (fid) {
             case 0: b = spif_mbuff_sprintf(self, (spif_charptr_t)"%s", sa); n = snprintf(out, sizeof(out), "%s", sa); break;
             case 1: b = spif_mbuff_sprintf(self, (spif_charptr_t)"%ld", iv); n = snprintf(out, sizeof(out), "%ld", iv); break;
@@ -330,9 +333,16 @@ static void exec(const plan_t *p)
             case 3: b = spif_mbuff_sprintf(self, (spif_charptr_t)""); n = 0; out[0] = 0; break;
             default: b = spif_mbuff_sprintf(self, (spif_charptr_t)NULL); n = -1; out[0] = 0; break;
             }
+            vfailed = sim_vsnprintf_failed; sim_vsnprintf_fail_at = 0;
             if (n < 0) {
                 /* no format: refused.  Whether the old bytes are still there or already gone is not stated; one or the other */
                 if (b) sim_fail("MISMATCH(return)", "sprintf(NULL format) returned TRUE");
+                if ((size_t)self->len == m->len && (!m->len || (self->buff && sa_readable(self->buff, m->len) && !memcmp(self->buff, m->b, m->len)))) goto sprintf_done;
+                n = 0;
+            }
+            else if (vfailed && !b) {
+                /* the formatter failed and the call said so: the object is left with a value all the same -- what it held, or nothing */
+                probe_hit("sprintf_refused_after_formatter_failure");
                 if ((size_t)self->len == m->len && (!m->len || (self->buff && sa_readable(self->buff, m->len) && !memcmp(self->buff, m->b, m->len)))) goto sprintf_done;
                 n = 0;
             }
@@ -617,7 +627,8 @@ static void gen(plan_t *p, rng_t *r)
             else { o = plan_op(p, 0, "splice_ptr", 5, (long)s, idx, cnt, 0L, (long)symb); if (!rng_chance(r, 1, 8)) { n = gen_bytes(r, gbuf, sizeof(gbuf), 0); op_str(o, gbuf, n); } }
         } else if (k < 58) {
             int pow2 = rng_chance(r, 1, 8);         /* one in eight: a result whose length is a power of two, or one or two off it (a scratch buffer of any such size, filled exactly) */
-            o = plan_op(p, 0, "sprintf", 3, (long)s, pow2 && rng_chance(r, 2, 3) ? 0L : (long)rng_below(r, 5), (long)(int)rng_u64(r));
+            if (rng_chance(r, 1, 10)) o = plan_op(p, 0, "sprintf", 4, (long)s, (long)rng_below(r, 3), (long)(int)rng_u64(r), (long)rng_range(r, 1, 2));      /* the formatter fails at its first or second call */
+            else o = plan_op(p, 0, "sprintf", 3, (long)s, pow2 && rng_chance(r, 2, 3) ? 0L : (long)rng_below(r, 5), (long)(int)rng_u64(r));
             n = pow2 ? (size_t)((1 << rng_range(r, 4, 13)) + rng_range(r, -2, 1)) : rng_chance(r, 1, 6) ? (size_t)rng_range(r, 4000, 12000) : (size_t)rng_range(r, 0, 20);      /* one in six formats several kilobytes */
             for (size_t j = 0; j < n; j++) gbuf[j] = (unsigned char)('a' + rng_below(r, 26));
             op_str(o, gbuf, n);
